@@ -419,7 +419,7 @@ def split_impl(impl):
         return None
     try:
         c = t.index("cif=")
-        n = t.index("N", c)
+        n = [i for i in range(c, len(t) - 1) if t[i] == "N" and t[i + 1].startswith("rc=")][-1]
         return {"S": (int(t[2][3:]), int(t[3][2:]), parse_log(t[5:c])), "cif": t[c + 1:n],
                 "N": (int(t[n + 1][3:]), int(t[n + 2][2:]), parse_log(t[n + 4:]))}
     except Exception:       # noqa
@@ -742,7 +742,9 @@ def first_reached(prog, n):
 def oracle(req, impl):
     sp = split_impl(impl)
     if sp is None:
-        return None if not impl.startswith("bad-op") else "executor rejected the request"
+        if impl.startswith("pc ") or impl.startswith("bad-op"):
+            return "unreadable observation / executor rejected the request: " + impl[:80]
+        return None             # crash / timeout lines are judged by check.py
     try:
         dochex, toks, prog = split_req(req)
         doc = doc_of_tokens(toks)
